@@ -15,6 +15,7 @@ const PAGE: usize = 4096;
 const ARENA_SIZE: usize = 1 << 40;
 
 static ARENA_BASE: AtomicUsize = AtomicUsize::new(0);
+pub static LIVE_BYTES: std::sync::atomic::AtomicIsize = std::sync::atomic::AtomicIsize::new(0);
 static ARENA_NEXT: AtomicUsize = AtomicUsize::new(0);
 
 thread_local! {
@@ -22,6 +23,65 @@ thread_local! {
     static MODE: Cell<u8> = const { Cell::new(0) };
     static CASE_LEN: Cell<usize> = const { Cell::new(0) };
     static CASE_BUF: UnsafeCell<[u8; 16384]> = const { UnsafeCell::new([0; 16384]) };
+}
+
+thread_local! {
+    static TRACK: Cell<bool> = const { Cell::new(false) };
+    static TRACKED_N: Cell<usize> = const { Cell::new(0) };
+    static TRACKED: UnsafeCell<[(usize, usize, usize); 64]> = const { UnsafeCell::new([(0, 0, 0); 64]) };
+}
+
+/// Start recording the `alloc_zeroed` blocks (tape, interpreter context) made by the subject.
+pub fn track_begin() {
+    TRACKED_N.with(|n| n.set(0));
+    TRACK.with(|t| t.set(true));
+}
+
+/// Stop recording.  If `free_leftovers`, blocks that are still live are freed: an engine
+/// abort that unwinds through the threaded interpreter skips its `free_context`, which would
+/// otherwise leak the context and the tape on every aborted run.
+pub fn track_end(free_leftovers: bool) {
+    TRACK.with(|t| t.set(false));
+    let n = TRACKED_N.with(|n| n.replace(0));
+    if free_leftovers {
+        TRACKED.with(|b| {
+            let arr = unsafe { &*b.get() };
+            for &(p, size, align) in arr.iter().take(n) {
+                if p != 0 {
+                    unsafe {
+                        let layout = Layout::from_size_align_unchecked(size, align);
+                        GuardAlloc.dealloc(p as *mut u8, layout);
+                    }
+                }
+            }
+        });
+    }
+}
+
+fn track_add(p: *mut u8, layout: Layout) {
+    if p.is_null() || !TRACK.with(|t| t.get()) {
+        return;
+    }
+    let n = TRACKED_N.with(|n| n.get());
+    if n < 64 {
+        TRACKED.with(|b| unsafe { (*b.get())[n] = (p as usize, layout.size(), layout.align()) });
+        TRACKED_N.with(|c| c.set(n + 1));
+    }
+}
+
+fn track_remove(p: *mut u8) {
+    if !TRACK.with(|t| t.get()) {
+        return;
+    }
+    let n = TRACKED_N.with(|n| n.get());
+    TRACKED.with(|b| unsafe {
+        let arr = &mut *b.get();
+        for e in arr.iter_mut().take(n) {
+            if e.0 == p as usize {
+                e.0 = 0;
+            }
+        }
+    });
 }
 
 pub fn set_mode(m: u8) {
@@ -137,17 +197,19 @@ unsafe fn guard_free(ptr: *mut u8, layout: Layout) {
 
 unsafe impl GlobalAlloc for GuardAlloc {
     unsafe fn alloc(&self, layout: Layout) -> *mut u8 {
+        LIVE_BYTES.fetch_add(layout.size() as isize, Ordering::Relaxed);
         System.alloc(layout)
     }
     unsafe fn alloc_zeroed(&self, layout: Layout) -> *mut u8 {
+        LIVE_BYTES.fetch_add(layout.size() as isize, Ordering::Relaxed);
         let m = MODE.with(|c| c.get());
-        if m != 0 {
-            guard_alloc(layout, m)
-        } else {
-            System.alloc_zeroed(layout)
-        }
+        let p = if m != 0 { guard_alloc(layout, m) } else { System.alloc_zeroed(layout) };
+        track_add(p, layout);
+        p
     }
     unsafe fn dealloc(&self, ptr: *mut u8, layout: Layout) {
+        LIVE_BYTES.fetch_sub(layout.size() as isize, Ordering::Relaxed);
+        track_remove(ptr);
         if in_arena(ptr as usize) {
             guard_free(ptr, layout)
         } else {
@@ -155,6 +217,7 @@ unsafe impl GlobalAlloc for GuardAlloc {
         }
     }
     unsafe fn realloc(&self, ptr: *mut u8, layout: Layout, new_size: usize) -> *mut u8 {
+        LIVE_BYTES.fetch_add(new_size as isize - layout.size() as isize, Ordering::Relaxed);
         if in_arena(ptr as usize) {
             let new_layout = Layout::from_size_align_unchecked(new_size, layout.align());
             let n = System.alloc(new_layout);
